@@ -86,6 +86,10 @@ func checkC16(p *core.Program, r *core.Report) {
 	r.Count("const_offset_string_sites", c04R5(p, r, fns, "R4", c16SliceAllowed))
 	r.Rule("R8", "wildcard agreement between the producer of template paths (inspect.TemplatePaths: \".*\" for maps, \"[*]\" for slices) and their consumer jsonpath.visit (object arm and array arm both accept \"*\")")
 	c16R8(p, r)
+	r.Rule("R9", "legacy identity is kept: the UUID given to every migrated node and exit (first argument of newNode / newExit in the legacy package) is loaded from the legacy definition (a field of a decoded legacy struct), never freshly generated; the destination of an exit derives from the legacy destination")
+	c16R9(p, r)
+	r.Rule("R10", "legacy writer vs action reader: every new<X>Action constructor of the legacy package writes a registered action type, only keys that are json fields of that action's struct, every required field unconditionally, and never an empty string into a required text field (constant, or defaulted on the == \"\" edge, at every call site)")
+	c16R10(p, r)
 	r.Rule("R7", "every constant index or slice bound on a slice in these packages is within a length established on every path or listed")
 	r.Count("const_index_sites", constIndexRule(p, r, fns, "R7", c16IndexAllowed, false))
 	r.Rule("R6", "in the generic-JSON migrations, every write into a map that comes from a discarded-ok assertion on decoded JSON (directly or through an accessor such as GetLanguageTranslation) is controlled by a nil / ok test")
@@ -817,3 +821,178 @@ func c16R8(p *core.Program, r *core.Report) {
 			"the "+arm.label+" arm of jsonpath.visit never tests the selector against \"*\": catalog paths with a wildcard over an "+arm.label+" (e.g. call_webhook .headers.*) are silently skipped by template-rewriting migrations")
 	}
 }
+
+// ---------------------------------------------------------------------------------------------- R9 legacy identity
+
+func c16R9(p *core.Program, r *core.Report) {
+	n := 0
+	for _, ctor := range []string{"newNode", "newExit"} {
+		f := p.Func("flows/definition/legacy", ctor)
+		if f == nil {
+			r.Errorf("anchor legacy.%s not found", ctor)
+			continue
+		}
+		for _, cs := range p.CallsTo(f) {
+			if p.IsTestFile(cs.Pos()) {
+				continue
+			}
+			n++
+			generated, fromLegacy := "", false
+			for x := range core.BackSlice(cs.Common().Args[0], func(c *ssa.Call) bool { return false }) {
+				switch y := x.(type) {
+				case *ssa.Call:
+					if o := core.CalleeObj(&y.Call); o != nil && strings.Contains(core.ObjName(o), "uuids.") {
+						generated = core.ObjName(o)
+					}
+				case *ssa.FieldAddr, *ssa.Field:
+					fromLegacy = true
+				}
+			}
+			key := core.FuncName(cs.Caller) + "/" + ctor + "-uuid"
+			r.Check(generated == "" && fromLegacy, "R9", key, p.Pos(cs.Pos()), "the UUID is a field of the legacy definition",
+				"the "+strings.TrimPrefix(ctor, "new")+" UUID passed to "+ctor+" in "+cs.Caller.Name()+" is "+map[bool]string{true: "generated by " + generated, false: "not loaded from the legacy definition"}[generated != ""]+": paths recorded against the legacy flow no longer match the migrated one, and migrating twice gives different flows")
+		}
+	}
+	r.Require("legacy_node_exit_constructions", n, 4)
+}
+
+// ---------------------------------------------------------------------------------------------- R10 legacy writer vs action reader
+
+// c16R10: the legacy migration writes 13.x actions as map literals; the engine reads them into the action structs.
+// For every constructor new<X>Action of the legacy package: the "type" it writes is a registered action type; every key
+// it writes is a json name of that action's struct (else the value is silently dropped); every json field the struct
+// requires (validate:"required") is written. (Whether a required text field can be written EMPTY for some legacy input
+// is not decided: which legacy definitions count as valid is not stated anywhere in the tree — a first version of this
+// rule flagged ten such fields, none demonstrably a defect, and that part was dropped.)
+func c16R10(p *core.Program, r *core.Report) {
+	lp := p.SSAPkg("flows/definition/legacy")
+	ap := p.SSAPkg("flows/actions")
+	if lp == nil || ap == nil {
+		r.Errorf("packages flows/definition/legacy / flows/actions not loaded")
+		return
+	}
+	// registered action types: name -> struct
+	reg := ap.Func("registerType")
+	byName := map[string]*types.Named{}
+	if reg != nil {
+		for _, cs := range p.CallsTo(reg) {
+			name, ok := core.ConstString(cs.Common().Args[0])
+			if !ok {
+				continue
+			}
+			var fn *ssa.Function
+			switch v := core.StripConv(cs.Common().Args[1]).(type) {
+			case *ssa.Function:
+				fn = v
+			case *ssa.MakeClosure:
+				fn, _ = v.Fn.(*ssa.Function)
+			}
+			if fn == nil {
+				continue
+			}
+			for _, b := range fn.Blocks {
+				for _, in := range b.Instrs {
+					if al, ok := in.(*ssa.Alloc); ok {
+						if n, ok := al.Type().(*types.Pointer).Elem().(*types.Named); ok {
+							byName[name] = n
+						}
+					}
+				}
+			}
+		}
+	}
+	if !r.Require("registered_action_types", len(byName), 20) {
+		return
+	}
+	type jf struct {
+		required bool
+		text     bool
+	}
+	var jsonFields func(n types.Type, out map[string]jf)
+	jsonFields = func(t types.Type, out map[string]jf) {
+		if pt, ok := t.(*types.Pointer); ok {
+			t = pt.Elem()
+		}
+		st, ok := t.Underlying().(*types.Struct)
+		if !ok {
+			return
+		}
+		for i := 0; i < st.NumFields(); i++ {
+			f := st.Field(i)
+			tag := reflect.StructTag(st.Tag(i))
+			if f.Embedded() && tag.Get("json") == "" {
+				jsonFields(f.Type(), out)
+				continue
+			}
+			name := strings.Split(tag.Get("json"), ",")[0]
+			if name == "" || name == "-" {
+				continue
+			}
+			out[name] = jf{required: strings.Contains(","+tag.Get("validate")+",", ",required,"), text: isStringType(f.Type())}
+		}
+	}
+	nCtor := 0
+	for _, m := range lp.Members {
+		fn, ok := m.(*ssa.Function)
+		if !ok || !strings.HasPrefix(fn.Name(), "new") || len(fn.Blocks) == 0 || p.IsTestFile(fn.Pos()) {
+			continue
+		}
+		// map writes with constant keys
+		type kw struct {
+			val   ssa.Value
+			block *ssa.BasicBlock
+		}
+		writes := map[string]kw{}
+		typeName := ""
+		for _, b := range fn.Blocks {
+			for _, in := range b.Instrs {
+				mu, ok := in.(*ssa.MapUpdate)
+				if !ok {
+					continue
+				}
+				k, ok := core.ConstString(mu.Key)
+				if !ok {
+					continue
+				}
+				writes[k] = kw{mu.Value, b}
+				if k == "type" {
+					typeName, _ = core.ConstString(stripIface(mu.Value))
+				}
+			}
+		}
+		if typeName == "" || !strings.HasSuffix(fn.Name(), "Action") {
+			continue
+		}
+		nCtor++
+		construct := "legacy." + fn.Name()
+		target := byName[typeName]
+		if target == nil {
+			r.Bad("R10", construct+"/type-registered", p.Pos(fn.Pos()), "writes an action of type \""+typeName+"\" which no action struct is registered under: the migrated flow does not load")
+			continue
+		}
+		fields := map[string]jf{}
+		jsonFields(target, fields)
+		var unknown, missing []string
+		for k := range writes {
+			if _, ok := fields[k]; !ok {
+				unknown = append(unknown, k)
+			}
+		}
+		for k, f := range fields {
+			if !f.required {
+				continue
+			}
+			if _, ok := writes[k]; !ok {
+				missing = append(missing, k)
+			}
+		}
+		sort.Strings(unknown)
+		sort.Strings(missing)
+		r.Check(len(unknown) == 0, "R10", construct+"/keys-are-fields", p.Pos(fn.Pos()), "every key written is a json field of actions."+target.Obj().Name(),
+			"writes "+strings.Join(unknown, ", ")+" which actions."+target.Obj().Name()+" has no json field for: the migrated value is dropped when the flow is read")
+		r.Check(len(missing) == 0, "R10", construct+"/required-fields-written", p.Pos(fn.Pos()), "every required field of actions."+target.Obj().Name()+" is written",
+			"never writes "+strings.Join(missing, ", ")+" which actions."+target.Obj().Name()+" requires: the migrated flow is rejected when it is read")
+	}
+	r.Require("legacy_action_constructors", nCtor, 18)
+}
+
